@@ -174,7 +174,7 @@ def _walk(
             ifret(bot)
             for r in bot.routines():
                 ifrec(r)
-                for ref in a.feedback():
+                for ref in r.feedback():
                     ifref(ref)
                 for ref in r.variables():
                     ifref(ref)
